@@ -18,6 +18,22 @@ Theorem C09_every_punct_escapable : forallb (fun c => mem_z c escaped_table) md_
 Proof. exact punct_escapable. Qed.
 Print Assumptions C09_every_punct_escapable.
 
+(* the character classes the wording of the property relies on - "without leading/trailing whitespace", "each ASCII punctuation
+   character" - as the code has them now: the two tables are regenerated from /repo on every run, so a change to MD_WHITESPACE or
+   MD_ASCII_PUNCT stops these statements from checking (a regenerated table follows the code: no comparison of model and
+   implementation can notice) *)
+From MD Require Import Lemmas.TablePins.
+Theorem C09_markdown_whitespace_is :
+  forall c, is_white_space c = true <->
+  (9 <= c <= 13 \/ c = 32 \/ c = 160 \/ c = 5760 \/ 8192 <= c <= 8202 \/ c = 8239 \/ c = 8287 \/ c = 12288).
+Proof. exact is_white_space_spec. Qed.
+Print Assumptions C09_markdown_whitespace_is.
+
+Theorem C09_ascii_punctuation_is :
+  md_ascii_punct = [33; 34; 35; 36; 37; 38; 39; 40; 41; 42; 43; 44; 45; 46; 47; 58; 59; 60; 61; 62; 63; 64; 91; 92; 93; 94; 95; 96; 123; 124; 125; 126].
+Proof. exact md_ascii_punct_pin. Qed.
+Print Assumptions C09_ascii_punctuation_is.
+
 Theorem C09_escape_rule :
   forall st c,
     py_idx (i_src st) (i_pos st) = Ok 92 -> i_pos st + 1 < i_posMax st ->
